@@ -252,6 +252,13 @@ func (e *Exchange) decodeExchangeHeaders(dec *cbor.Decoder) error {
 }
 
 func (e *Exchange) Write(w io.Writer) error {
+	// The request URL is written as the fallback URL (the ":url" header in
+	// version b1), which "MUST be an absolute URL with a scheme of "https"".
+	// Refuse to emit a file that ReadExchange rejects.
+	if _, err := validateFallbackURL([]byte(e.RequestURI)); err != nil {
+		return err
+	}
+
 	var headerBuf bytes.Buffer
 	if err := e.DumpExchangeHeaders(&headerBuf); err != nil {
 		return err
